@@ -583,6 +583,36 @@ def rule_r11(ctx):
         raise AnalysisBroken("only %d stores to mq_alloc found" % n)
 
 
+def rule_r12(ctx):
+    r = ctx.rule("C18.R12", "T9", "a slot of the id map is occupied iff its value is non-NULL: every function of idhash.c decides occupancy by "
+                 "testing `.val`; the key is only ever compared with the id being looked for -- comparing a slot's key with a "
+                 "constant treats the legal id 0 as 'empty' (the entry is found by get and remove but never visited)", floor=4)
+    prog = ctx.prog
+    n = 0
+    for f in prog.fns_in("core/idhash.c"):
+        if f.cfg_failed:
+            continue
+        seen = set()
+        for bid, k, atom, val in G.edge_facts(f):
+            if (bid, show(atom)) in seen:
+                continue
+            seen.add((bid, show(atom)))
+            mems = [m for m in walk(atom) if m.get("k") == "mem" and (last_field(m) or "").startswith("nni_id_entry.")]
+            if not mems:
+                continue
+            flds = {m.get("f") for m in mems}
+            if "val" in flds:
+                n += 1
+                r.ob(f, "occupancy decided by %s" % show(atom))
+            if "key" in flds and atom.get("k") == "bin" and (const_of(atom["lhs"]) is not None or const_of(atom["rhs"]) is not None):
+                n += 1
+                ctx.fail(r, f, "slot key compared with a constant", f.line_of(bid, 0),
+                         "%s tests %s: a slot's key says nothing about whether the slot is in use (0 is a legal id, and a removed "
+                         "slot keeps no meaningful key); the sibling functions test .val" % (f.name, show(atom)))
+    if n < 4:
+        raise AnalysisBroken("only %d slot tests found in idhash.c" % n)
+
+
 def run(ctx):
     ctx.guard(rule_r1)
     ctx.guard(rule_r2)
@@ -593,3 +623,9 @@ def run(ctx):
     ctx.guard(rule_r9)
     ctx.guard(rule_r10)
     ctx.guard(rule_r11)
+    ctx.guard(rule_r12)
+    from . import c08
+    ctx.guard(c08.rule_r6)        # the pair sockets' receive buffer stays first-in first-out
+    for rr in ctx.rules:
+        if rr.id == "C08.R6":
+            rr.id = "C18.R13"
